@@ -70,6 +70,23 @@ def gap_rules(ctx, facts, rule="R14.2"):
             sa, sb = term_str(add, a), term_str(add, b2)
             if "last_token_location" in sa + sb and "start" in sa + sb:
                 gate = (d, k)
+    if gate is None and len(pushes) >= 2:
+        # the gap token exists but is not decided by the offset comparison: name what decides it instead
+        cdeps = control_dependence_no_errors(add)
+        gp = [c for c in pushes if not ((raw_operand_place(add, c.args[1]) or [None])[0] == 2)]
+        conds = []
+        for c in gp:
+            for a, s_, k in transitive_control_deps(add, c.bb, cd=cdeps):
+                if k and k[0] in ("call", "disc-call"):
+                    conds.append("%s at line %d" % ((k[1].path or "?").split("::")[-1], k[1].line))
+                elif k:
+                    conds.append("%s at line %d" % (k[0], add.line_of_block(a)))
+        ctx.bad(rule, "TokenBuffer::add|gap-test-is-the-offset-comparison",
+                "the gap token of TokenBuffer::add is not decided by the comparison `last_token_location < token.location.start` "
+                "(conditions found: %s): every stretch of input between two tokens is unmatched text, whatever it contains - a test on "
+                "the content of the gap (e.g. trim().is_empty()) drops whitespace-only gaps in states without whitespace rules from the "
+                "token sequence and the tree" % (sorted(set(conds)) or "none"), where(add, gp[0].line if gp else None))
+        return
     if gate is None or len(pushes) < 2:
         raise AnchorMissing("TokenBuffer::add: cannot find the gap test / the pushes of gap token and token")
     d, k = gate
